@@ -1,2 +1,6 @@
 import Proofs.ScanLemmas
 import Proofs.C05
+import Proofs.Utf8Lemmas
+import Proofs.TwLemmas
+import Proofs.TwBridge
+import Proofs.C13
